@@ -3,19 +3,28 @@ from harness import common as C
 from harness import arrays
 
 PROPERTY = "C19"
-LEAN_TARGETS = ["VectorModel.Props.C19"]
-THEOREM_FILES = ["VectorModel/Props/C19.lean"]
+LEAN_TARGETS = ["VectorModel.Props.C19", "VectorModel.Glue.Heap", "VectorModel.Props.C19Heap"]
+THEOREM_FILES = ["VectorModel/Props/C19.lean", "VectorModel/Props/C19Heap.lean"]
 NEEDS_TRANSLATOR = False
 
 
 def correspondence(ctx):
     problems, stats, samples = arrays.c19_run(ctx)
+    # HEAP model (Glue/Heap.lean: buffers, views as index maps, copies / pickles as fresh buffers, writes through aliases): random
+    # histories over several live variables on the real arrays against the Lean driver, state compared after every operation
+    from harness import heap
+    hp, hst = heap.run(ctx)
+    problems = problems + [("heap:" + k, d) for k, d in hp]
+    stats.update({"heap_" + k: v for k, v in hst.items() if isinstance(v, int)})
+    stats["heap_ops"] = hst.get("ops")
     seen, fails = set(), []
     for k, d in problems:
         if k in seen:
             continue
         seen.add(k)
-        fails.append({"key": k, "what": d[:400], "code": replay_code(ctx.seed, ctx.tier, k)})
+        fails.append({"key": k, "what": d[:400], "code": replay_code(ctx.seed, ctx.tier, k) if not k.startswith("heap:") else (
+            "import sys; sys.path.insert(0, %r); sys.path.insert(0, %r)\nfrom harness import heap\nclass X: seed=%d; tier=%r\n"
+            "problems, _ = heap.run(X)\nassert not problems, problems[0]\n" % (C.VERIF, C.VERIF + "/tools", ctx.seed, ctx.tier))})
     stats["traces_validated_against_impl"] = sum(v for v in stats.values() if isinstance(v, int))
     return {"ok": not problems, "disagreements": [f"{k}: {d}"[:300] for k, d in problems[:12]], "failing_inputs": fails[:6],
             "stats": stats, "samples": samples}
